@@ -91,7 +91,7 @@ pub struct Ctx {
 }
 
 pub trait Prop: Sync {
-    type Case: Serialize + DeserializeOwned + Clone + Send + 'static;
+    type Case: Serialize + DeserializeOwned + Clone + Send + Sync + 'static;
     fn id(&self) -> &'static str;
     fn level(&self) -> &'static str;
     fn n_cases(&self, tier: Tier) -> u64;
@@ -111,6 +111,11 @@ pub trait Prop: Sync {
         vec![]
     }
     fn needs_l2(&self) -> bool {
+        false
+    }
+    /// run every case in a fresh thread with seeded hash keys (needed where the code under
+    /// test creates hash maps: the create path)
+    fn isolate(&self) -> bool {
         false
     }
 }
@@ -210,10 +215,22 @@ struct Agg {
     digests: Vec<(u64, u64)>,
 }
 
+/// Default hash seed of a case thread.
+pub const CASE_HASHSEED: u64 = 0x5eed_0000_0000_0001;
+
+/// Every case runs in a fresh thread with seeded hash keys (see `hashseed`).
+pub fn run_isolated<P: Prop>(p: &P, case: &P::Case, ctx: &mut Ctx) -> Outcome {
+    if p.isolate() {
+        crate::hashseed::with_seed(CASE_HASHSEED, || p.run(case, ctx))
+    } else {
+        p.run(case, ctx)
+    }
+}
+
 fn run_one<P: Prop>(p: &P, seed: u64, idx: u64, tier: Tier, ctx: &mut Ctx) -> (P::Case, Outcome) {
     let cs = mix(seed, stream_of(p.id()), idx);
     let case = p.gen(cs, idx, tier);
-    let out = p.run(&case, ctx);
+    let out = run_isolated(p, &case, ctx);
     (case, out)
 }
 
@@ -458,7 +475,7 @@ fn report_violation<P: Prop>(p: &P, seed: u64, idx: u64, v: &Violation, tier: Ti
             if execs > 400 {
                 break;
             }
-            let out = p.run(&cand, ctx);
+            let out = run_isolated(p, &cand, ctx);
             if let Some(nv) = same_violation(&out, v) {
                 case = cand;
                 cur_v = nv;
@@ -468,7 +485,7 @@ fn report_violation<P: Prop>(p: &P, seed: u64, idx: u64, v: &Violation, tier: Ti
             }
         }
     }
-    let out = p.run(&case, ctx);
+    let out = run_isolated(p, &case, ctx);
     let digest = out.digest;
     let rf = ReplayFile {
         property: p.id().to_string(),
@@ -523,7 +540,7 @@ pub fn replay<P: Prop>(p: &P, rf: &ReplayFile) -> i32 {
     };
     let tier = if rf.tier == "thorough" { Tier::Thorough } else { Tier::Quick };
     let mut ctx = make_ctx(0, tier);
-    let out = p.run(&case, &mut ctx);
+    let out = run_isolated(p, &case, &mut ctx);
     cleanup_scratch();
     let same = out.violations.iter().find(|x| x.clause == rf.clause && x.key == rf.key);
     match same {
